@@ -385,6 +385,8 @@ def one_dump(ctx, scene, x, root_bean, own_ignore, call_ignore, position, desc):
         ctx.cell("handler", "user-class" if h in user else h)
     try:
         out = jc.dump(x, **kw)
+        if scene.via == "config" and not call_ignore:
+            other_routes(ctx, scene, x, out, case)
     except Exception as ex:
         ctx.violate("dump-raised-%s" % type(ex).__name__, case, {"raised": ex})
         return
@@ -407,6 +409,44 @@ def one_dump(ctx, scene, x, root_bean, own_ignore, call_ignore, position, desc):
         if key not in seen:
             seen.add(key)
             ctx.violate(key, case, detail)
+
+
+def other_routes(ctx, scene, x, ref, case):
+    """
+    The same value serialised through the library's other users of the same Config: the message construction API and
+    a dispatcher answering a 2.0-form and a 1.0-form request (a 2.0 server answers the latter with a derived Config).
+    Each must emit what the direct dump (judged by the oracle) emitted.
+    """
+    import jsonrpclib.jsonrpc as jr
+    from jsonrpclib.SimpleJSONRPCServer import SimpleJSONRPCDispatcher
+    try:
+        want = json.loads(json.dumps(ref))
+    except (TypeError, ValueError, RecursionError):
+        ctx.count("routes:skipped-not-json-text")
+        return
+    calls = list(scene.handlers.calls)
+    got = {}
+    try:
+        got["dumps-response"] = json.loads(jr.dumps(x, methodresponse=True, rpcid=1, config=scene.cfg))["result"]
+        got["dumps-request"] = json.loads(jr.dumps([x], "m", rpcid=1, config=scene.cfg))["params"][0]
+        disp = SimpleJSONRPCDispatcher(config=scene.cfg)
+        disp.register_function(lambda: x, "get")
+        for form, body in (("server-2.0-form-request", '{"jsonrpc": "2.0", "method": "get", "id": 1}'),
+                           ("server-1.0-form-request", '{"method": "get", "params": [], "id": 1}')):
+            reply = json.loads(disp._marshaled_dispatch(body))
+            got[form] = reply.get("result") if reply.get("error") is None else {"<error>": reply["error"]}
+        got["copy-of-config"] = json.loads(json.dumps(__import__("jsonrpclib.jsonclass").jsonclass.dump(
+            x, config=scene.cfg.copy())))
+    except Exception as ex:
+        ctx.violate("route-raised-%s" % type(ex).__name__, case, {"raised": ex, "routes_done": sorted(got)})
+        return
+    finally:
+        scene.handlers.calls[:] = calls
+    for route, val in got.items():
+        ctx.count("judged:route:" + route)
+        if not gen.teq(val, want):
+            ctx.violate("route-differs-from-direct-dump:" + route, case,
+                        {"route": route, "got": gen.trepr(val)[:600], "direct": gen.trepr(want)[:600]})
 
 
 def wrap(x, position):
